@@ -38,8 +38,9 @@ def isWakeFor (t : Tid) : Item → Bool
 def startTasks (sp : Spec) : List String :=
   (sp.graph.tasks.filter fun t => (inbound sp.graph t.name).isEmpty).map (·.name)
 
-/-- the hypothesis under which the join part is proved: while PAUSED no incomplete execution
-    carries a stale `processed` flag (it does after `Task.defer` re-opened a finished join) -/
+/-- the hypothesis of `step_inv2`: while PAUSED no incomplete execution carries a stale `processed`
+    flag (before "fix: re-opening a join resets its processed flag" `Task.defer` left one on a
+    re-opened join; now a consequence of `freshB` / `Fresh`) -/
 def pausedCleanB (w : World) : Bool :=
   w.wf != .PAUSED || w.tasks.all fun r => isCompleted r.state || !r.processed
 
@@ -94,8 +95,12 @@ def verdictBlockedB (sp : Spec) (w : World) : Bool :=
           -- the lemma needs these
           !(routesOKB w && startsOKB sp w)
 
+/-- no incomplete execution carries the `processed` flag (`Lemmas/LiveFresh.lean`) -/
+def freshB (w : World) : Bool := w.tasks.all fun r => isCompleted r.state || !r.processed
+
 def checks : List (String × (Spec → World → Bool)) :=
   [("no_stuck", fun _ w => !stuck w),
+   ("fresh", fun _ w => freshB w),
    ("idsOK", fun _ w => idsOKB w),
    ("rowsLive", fun _ w => rowsLiveB w),
    ("checkOK", fun _ w => checkOKB w),
@@ -365,7 +370,7 @@ theorem dispatchOne_creates (sp : Spec) (w : World) (c : Cmd) (h : w.wf = .RUNNI
       simp only
       have hm := (findByName_mem w _ r hr).1
       split
-      · refine ⟨{ r with state := .WAITING }, ?_, waiting_incomplete⟩
+      · refine ⟨{ r with state := .WAITING, processed := false }, ?_, waiting_incomplete⟩
         unfold setTask
         exact List.mem_map.mpr ⟨r, hm, by simp⟩
       · rename_i hs
